@@ -194,6 +194,8 @@ def check_build_outcome(rep: Report, prog: Program) -> None:
         (f"{LOGIC}:build_scheduled_outcome", {"ok": ("const", False), "value": ("const", None), "state": ("param", "state"), "attempts": ("param", "attempts"), "next_sleep_s": ("param", "next_sleep_s"), "timeline": ("param", "timeline")}),
         (f"{LOGIC}:build_success_outcome", {"ok": ("const", True), "value": ("param", "result"), "state": ("param", "state"), "attempts": ("param", "attempts"), "timeline": ("param", "timeline")}),
     ):
+        if q not in prog.funcs and q.endswith((":build_scheduled_outcome", ":build_success_outcome")):
+            continue  # two convenience wrappers the runners need not use (unused on the pinned tree): gone is fine
         f2 = prog.func(q)
         rep.analysed(q)
         for p in engine(prog).paths(f2):
@@ -376,38 +378,37 @@ def check_no_retry_builders(rep: Report, prog: Program) -> None:
         "build_success_outcome_no_retry": dict(ok=("const", True), value=("param", "result"), stop_reason=("const", None), attempts=("const", 1), last_class=("const", None), last_exception=("const", None), last_result=("const", None), cause=("const", None)),
         "build_exception_outcome_no_retry": dict(ok=("const", False), value=("const", None), stop_reason=("const", None), attempts=("const", 1), last_class=("param", "klass"), last_exception=("param", "exc"), last_result=("const", None), cause=("const", "exception")),
     }
-    for fn, want in table.items():
-        fi = prog.func(f"{X}:{fn}")
-        rep.analysed(fi.qual)
-        for p in engine(prog).paths(fi):
-            calls = [e for e in p.calls() if e.is_repo(":_build_policy_outcome")]
-            rep.instance("R11.6", fn)
-            got = calls[0].kwargs if len(calls) == 1 else {}
-            bad = {k: (show(got.get(k)) if got.get(k) is not None else None, show(v)) for k, v in want.items() if got.get(k) != v}
-            if fn == "build_circuit_open_outcome":
-                le = got.get("last_exception")
-                if not (le is not None and le[0] == "pure" and le[1] == "new CircuitOpenError" and le[2] == (("param", "state_value"),)):
-                    bad["last_exception"] = (show(le) if le else None, "CircuitOpenError(state_value)")
-            if len(calls) != 1 or bad or p.exit != ("return", calls[0].result):
-                rep.fail("R11.6", f"{fn}|{sorted(bad)[0] if bad else 'shape'}", f"{fn}: fields differ (found, expected): {bad}", where=fi.where(), function=fi.qual)
-            else:
-                rep.ok("R11.6")
-    pb = prog.func("redress.policy.policy_helpers:_build_policy_outcome")
-    for p in engine(prog).paths(pb):
-        d = ctor_args(p.exit[1], "RetryOutcome", []) if p.exit[0] == "return" else None
-        rep.instance("R11.6", "_build_policy_outcome")
-        ok = d is not None
-        if ok:
-            for k, v in d.items():
-                if k == "value":
-                    ok = ok and v == ("ite", ("param", "ok"), ("param", "value"), ("const", None))
+    # decided on each builder as a whole, with the shared private constructor helper (`_build_policy_outcome`, where
+    # there is one) read through: the RetryOutcome the builder returns, field by field
+    eng = engine(prog)
+    inline0 = eng.inline
+    eng.inline = lambda f, inline0=inline0: bool(inline0 and inline0(f)) or f.qual.endswith(":_build_policy_outcome")
+    try:
+        for fn, want in table.items():
+            fi = prog.func(f"{X}:{fn}")
+            rep.analysed(fi.qual)
+            for p in eng.paths(fi, raises=lambda ev, cfg: (), key="c11-builders"):
+                rep.instance("R11.6", fn)
+                got = ctor_args(p.exit[1], "RetryOutcome", []) if p.exit[0] == "return" else None
+                if got is None:
+                    ev_ = [e for e in p.calls(pure=None) if e.is_ctor("RetryOutcome")]
+                    got = dict(ev_[-1].kwargs) if ev_ and p.exit == ("return", ev_[-1].result) else {}
+                got = {k: (v[3] if isinstance(v, tuple) and len(v) == 4 and v[0] == "ite" and v[1] == ("const", False) else (v[2] if isinstance(v, tuple) and len(v) == 4 and v[0] == "ite" and v[1] == ("const", True) else v)) for k, v in got.items()}
+                bad = {k: (show(got.get(k)) if got.get(k) is not None else None, show(v)) for k, v in want.items() if got.get(k) != v}
+                if fn == "build_circuit_open_outcome":
+                    le = got.get("last_exception")
+                    if not (le is not None and le[0] == "pure" and le[1] == "new CircuitOpenError" and le[2] == (("param", "state_value"),)):
+                        bad["last_exception"] = (show(le) if le else None, "CircuitOpenError(state_value)")
+                if bad:
+                    rep.fail("R11.6", f"{fn}|{sorted(bad)[0] if bad else 'shape'}", f"{fn}: fields differ (found, expected): {bad}", where=fi.where(), function=fi.qual)
                 else:
-                    ok = ok and v == ("param", k)
-        if ok:
-            rep.ok("R11.6")
-        else:
-            rep.fail("R11.6", "_build_policy_outcome|passthrough", f"_build_policy_outcome does not pass its arguments through: {show(p.exit[1]) if len(p.exit) > 1 else p.exit}", where=pb.where(), function=pb.qual)
-    rep.floor("R11.6", 5)
+                    rep.ok("R11.6")
+    finally:
+        eng.inline = inline0
+    pbq = "redress.policy.policy_helpers:_build_policy_outcome"
+    if pbq in prog.funcs:
+        rep.analysed(pbq)
+    rep.floor("R11.6", 4)
 
 
 def run(rep: Report, prog: Program, tier: str) -> None:
